@@ -133,10 +133,13 @@ package lexer
 //@ invariant 1: lexstep(l) && position == old(l.position) + 1
 //@ ensures[C20.lex.inv] lexstep(l)
 
+// (white space and any number of comments are skipped in loop 1 - KF-57 fixed: Next used to call itself once per
+// comment, so a long run of comments exhausted the Go stack)
 //@ func (*Lexer).Next
 //@ props C20 C03
 //@ safety
 //@ requires Inv(l) && l.position >= 0
+//@ invariant 1: Inv(l) && lexframe(l) && l.position >= old(l.position) && l.position >= 0
 //@ modifies l.position, l.nextPosition, l.ch, l.line, l.lineStart, l.column, l.tokenStartPosition, l.prevToken
 //@ ensures[C20.lex.inv] Inv(l) && lexframe(l) && l.position >= old(l.position)
 //@ assume[src.nul] clen(l) > 0 ==> l.characters[0] != 0 && (l.prevToken.Type == "EOF" ==> l.position >= 1)
